@@ -63,7 +63,7 @@ def correspond(ctx):
     req, meta = [], []
     pts = [b"", b"x", b"0123456789abcde", b"0123456789abcdef", b"0123456789abcdefg", bytes(range(256)) * 17]
     if not quick:
-        pts.append(os.urandom(0) + bytes(rnd.getrandbits(8) for _ in range(70000)))
+        pts.append(bytes(rnd.getrandbits(8) for _ in range(20000)))
     wraps = G.SYM_WRAPS + G.PBES2[:1] + G.EC_WRAPS + G.RSA_WRAPS
     for wrap in wraps:
         for enc in ENCS:
@@ -71,7 +71,8 @@ def correspond(ctx):
                 for aad in (None, "YWFk"):
                     if quick and rnd.random() < (0.0 if wrap in ("dir", "A128KW") else 0.75):
                         continue
-                    if wrap in G.PBES2 and quick and (zip_ or aad or enc != "A128GCM"):
+                    if wrap in G.PBES2 and ((quick and (zip_ or aad or enc != "A128GCM")) or (not quick and (zip_ or enc not in ("A128GCM", "A256CBC-HS512")))):
+                        # PBKDF2 with >= 1000 iterations on the Gallina model costs ~30 s per token
                         continue
                     key = G.wrap_key(rnd, keys, wrap, enc)
                     if key is None:
